@@ -1289,6 +1289,10 @@ func (x *Exec) resolveSinkValue(st *State, v Value, depth int) (*Ptr, int) {
 	if !isInterface(v.T) || len(v.L) != 1 {
 		return nil, sinkUnknown
 	}
+	if inner, ok := st.sinkOf[v.L[0].S]; ok {
+		// an interface value returned by a wrapping constructor (io.LimitReader, io.TeeReader, ...)
+		return x.resolveSinkValue(st, inner, depth+1)
+	}
 	if bv, ok := st.boxed[v.L[0].S]; ok {
 		if !isPointer(bv.T) {
 			return nil, sinkUnknown
